@@ -299,8 +299,8 @@ def run_job(job):
                     acc.check("ident", {"curve": cv, "a": a, "b": b, "P": P}, chk_ident)
         acc.sample({"curve": cv, "kind": "ident", "shard": job["shard"]})
     elif part == "coord":
-        for x in range(0, C.p + 2):
-            for y in range(0, C.p + 2):
+        for x in range(0, 2 * C.p + 2):          # every residue twice: unreduced coordinates must not pass as points
+            for y in range(0, 2 * C.p + 2):
                 acc.evaluations += 1
                 if x >= C.p or y >= C.p or C.on_curve((x, y)):
                     acc.nontrivial += 1
